@@ -168,6 +168,11 @@ func isoShapes(scratch string, rng *rand.Rand, n int) []*isoShape {
 	mk("key-ids", func(c *Cfg, n *[]Node) {
 		c.DebSigKeyID, c.RpmSigKeyID = "base-deb-key", "base-rpm-key"
 	}, "overrides:\n  rpm:\n    rpm:\n      signature:\n        key_id: \"override-rpm-key\"\n  deb:\n    deb:\n      signature:\n        key_id: \"override-deb-key\"\n")
+	mk("compressors", func(c *Cfg, n *[]Node) {
+		c.DebCompression, c.RpmCompression = "zstd", "zstd"
+		c.Entries = append(c.Entries, Entry{Type: "file", Src: "src/sub", Dst: "/usr/share/isopkg"})
+	}, "")
+	mk("compressors-xz", func(c *Cfg, n *[]Node) { c.DebCompression, c.RpmCompression = "xz", "xz" }, "")
 	mk("arch-translation", func(c *Cfg, n *[]Node) { c.Arch = "arm6"; c.Release = "" }, "")
 	for i := 0; len(out) < n; i++ {
 		pc := genPkgCase(rng, 1000+i, "payload", scratch, "quick")
@@ -282,7 +287,7 @@ func permutations(xs []string) [][]string {
 func famIso(tr *Trace, scratch string, seed int64, tier string, workers int) M {
 	os.Unsetenv("SOURCE_DATE_EPOCH")
 	rng := rand.New(rand.NewSource(seed + 99))
-	nshapes := 10
+	nshapes := 12
 	maxLen := 2
 	if tier == "thorough" {
 		nshapes, maxLen = 40, 3
@@ -402,7 +407,7 @@ func famIso(tr *Trace, scratch string, seed int64, tier string, workers int) M {
 func famConc(tr *Trace, scratch string, seed int64, tier string) M {
 	os.Unsetenv("SOURCE_DATE_EPOCH")
 	rng := rand.New(rand.NewSource(seed + 7))
-	nshapes, iters := 8, 12
+	nshapes, iters := 10, 12
 	if tier == "thorough" {
 		nshapes, iters = 30, 120
 	}
